@@ -273,9 +273,11 @@ def gen_cases(tier, rng):
         for ops in exhaustive([0, 1, 2], [0, 1], 5):
             cases.append({'max': False, 'ops': ops, 'src': 'exh5'})
             cases.append({'max': True, 'ops': ops, 'src': 'exh5'})
-        allh = exhaustive([0, 1, 2], [0], 7)
-        for i, ops in enumerate(allh):
-            cases.append({'max': i % 2 == 1, 'ops': ops, 'src': 'exh7'})
+        # all 1.5 million histories of length 7 do not fit the tier's budget: a seeded sample of them
+        pick = rng.random
+        for i, ops in enumerate(exhaustive([0, 1, 2], [0], 7)):
+            if pick() < 0.013:
+                cases.append({'max': i % 2 == 1, 'ops': ops, 'src': 'exh7'})
         n_rand, long_every = 6000, 6
     for i in range(n_rand):
         max_len = 200 if i % long_every == 0 else rng.choice([12, 25, 40, 60])
@@ -426,8 +428,8 @@ def check(tier, seed):
                 kinds[key] = kinds.get(key, 0) + 1
         run.cov['rule'] = ('symbolic histories over push/pop/peek/decrease_key/remove drawn from one seeded PRNG (key domains 2..40 with '
                            'duplicates, lengths up to 200, relative and absolute key changes incl. rejected increases) plus exhaustive '
-                           'histories over keys {0,1,2} (quick: 700 sampled of length 5; thorough: all of length 5 with two item ranks, all of '
-                           'length 7 with one), each run on FibonacciHeap or MaxFibonacciHeap; every step is checked; non-trivial = at '
+                           'histories over keys {0,1,2} (quick: 700 sampled of length 5; thorough: all 35969 of length 5 with two item ranks on both '
+                           'heaps, and a 1.3% sample of the 1.5 million of length 7 with one rank), each run on FibonacciHeap or MaxFibonacciHeap; every step is checked; non-trivial = at '
                            'least 3 executed operations; distinct by (heap kind, concrete history). utils.smallest / utils.largest: every key '
                            'list over {0,1,2} up to length 4 (thorough 6) with every n in -1..len+1, plus random lists up to length 120 '
                            'with duplicates and negative keys; non-trivial = at least 2 items and 0 < n < len')
